@@ -3,7 +3,8 @@
    Shape of the zone family:  code 1 ~ 2309 (array + single), code 2 ~ 2349 (single only, long),
    code 3 ~ 30C9 (array + single);  attribute "sp" <- {1, 2}, "md" <- {2}, "tp" <- {3}.
    Lifetimes are abstract (only their order matters here; the conformance run uses the lifetimes
-   read from the code).  h is hidden by the VIEW for exhaustive checking; the -simulate / -dump
+   read from the code).  Stamps: StampSteps = {1} (strictly increasing) in the older instances, StepsAnyDef
+   (same millisecond / clock put back) in MC_MsgStore_stamps*.cfg and the -simulate instances.  h is hidden by the VIEW for exhaustive checking; the -simulate / -dump
    instances keep it to hand behaviours to the conformance harness. *)
 EXTENDS MsgStore
 
